@@ -21,6 +21,9 @@ def SWC : Level := [cSWC]
 
 /-! ### `nextTopicLevel` -/
 
+/-- the scanner states; `sys` (Go: `stateSYS`) is no longer entered since '$' is
+an ordinary character of `nextTopicLevel` - the constant is still declared in
+the Go code, so it stays here too -/
 inductive LState where
   | chr | mwc | swc | sys
 deriving DecidableEq, Repr
@@ -30,7 +33,9 @@ inductive NTL where
   | ok (level rem : Level) (remNil : Bool)   -- remNil: Go returned a nil remainder (end of topic)
 deriving DecidableEq, Repr
 
-/-- the `for i, c := range topic` loop; `pre` is `topic[:i]` reversed. -/
+/-- the `for i, c := range topic` loop; `pre` is `topic[:i]` reversed.  '$' has
+no case of its own: it is handled by `default:` like any other byte (a level
+that starts with '+' or '#' may not continue, with '$' or anything else). -/
 def ntlLoop : (pre : List UInt8) → LState → (rest : List UInt8) → NTL
   | pre, _, [] => .ok pre.reverse [] true
   | pre, s, c :: rest =>
@@ -42,11 +47,8 @@ def ntlLoop : (pre : List UInt8) → LState → (rest : List UInt8) → NTL
       if !pre.isEmpty then .err else ntlLoop (c :: pre) .mwc rest
     else if c == cSWC then
       if !pre.isEmpty then .err else ntlLoop (c :: pre) .swc rest
-    else if c == cSYS then
-      if pre.isEmpty then .err
-      else if s == .mwc || s == .swc then .err
-      else ntlLoop (c :: pre) .sys rest
     else
+      -- `default:` - every other byte, '$' included
       if s == .mwc || s == .swc then .err else ntlLoop (c :: pre) .chr rest
 
 def nextTopicLevel (topic : List UInt8) : NTL := ntlLoop [] .chr topic
@@ -230,7 +232,10 @@ def RNode.rmatch (n : RNode) (topic : List UInt8) : Option (List RMsg) :=
   let (ls, ok) := levels topic
   n.rmatchL ls ok
 
-/-! ### `MemTopics` -/
+/-! ### `MemTopics`
+
+The five entry points below are the only way the broker and client models reach
+the tries (as in the library, where `sinsert` … `rmatch` are unexported). -/
 
 structure MemTopics where
   sroot : SNode
@@ -241,23 +246,31 @@ def MemTopics.new : MemTopics := ⟨SNode.empty, RNode.empty⟩
 
 def validQos (q : Nat) : Bool := q == 0 || q == 1 || q == 2
 
+/-- `checkSys(topic) != nil`: the topic begins with '$' (`len(topic) > 0 && topic[0] == '$'`).
+Every entry point of `MemTopics` rejects such a topic before the trie is touched. -/
+def checkSys (topic : List UInt8) : Bool := topic.head? == some cSYS
+
 /-- `Subscribe(topic, qos, sub)`; returns the granted QoS or failure. -/
 def MemTopics.subscribe (mt : MemTopics) (maxQos : Nat) (topic : List UInt8) (qos sub : Nat) :
     MemTopics × Option Nat :=
   if !validQos qos then (mt, none) else
   let qos := if qos > maxQos then maxQos else qos
+  if checkSys topic then (mt, none) else
   let (r, ok) := mt.sroot.sinsert topic qos sub
   ({ mt with sroot := r }, if ok then some qos else none)
 
 def MemTopics.unsubscribe (mt : MemTopics) (topic : List UInt8) (sub : Option Nat) : MemTopics × Bool :=
+  if checkSys topic then (mt, false) else
   let (r, ok) := mt.sroot.sremove topic sub
   ({ mt with sroot := r }, ok)
 
 def MemTopics.subscribers (mt : MemTopics) (topic : List UInt8) (qos : Nat) : Option (List (Nat × Nat)) :=
-  if !validQos qos then none else mt.sroot.smatch topic qos
+  if !validQos qos then none else
+  if checkSys topic then none else mt.sroot.smatch topic qos
 
 /-- `Retain(msg)`: an empty payload removes. -/
 def MemTopics.retain (mt : MemTopics) (m : RMsg) : MemTopics × Bool :=
+  if checkSys m.topic then (mt, false) else
   if m.payload.isEmpty then
     let (r, ok) := mt.rroot.rremove m.topic
     ({ mt with rroot := r }, ok)
@@ -266,6 +279,6 @@ def MemTopics.retain (mt : MemTopics) (m : RMsg) : MemTopics × Bool :=
     ({ mt with rroot := r }, ok)
 
 def MemTopics.retained (mt : MemTopics) (topic : List UInt8) : Option (List RMsg) :=
-  mt.rroot.rmatch topic
+  if checkSys topic then none else mt.rroot.rmatch topic
 
 end Mqtt.Model.Topics
